@@ -104,7 +104,8 @@ def worker(c):
             P.count("tasks_total", int(st[0] - t0))
             P.count("tasks_on_workers", int(on_workers))
             for (op, o_ref), (_, o) in zip(ref, outs):
-                fd = common.first_diff(o_ref, o)
+                # efc_b is written by mj_fwdConstraint only: after an inverse call it is engine-undefined arena memory (see C01), not an output
+                fd = common.first_diff(o_ref, o, skip=("arena.efc_b",) if op and op[0] == "inverse" else ())
                 if fd is not None:
                     P.violation("pool-differs-from-single-thread:%s" % fd["field"].split("[")[0].split(".")[0],
                                 {"scene": name, "case": c, "options": opts, "pool": p, "after_op": list(op), "diff": fd})
@@ -196,7 +197,7 @@ def classify_tsan(kind, text, cfg):
         return None
     # write side: issued by the PGS sweep itself (solPGS / its QCQP helper), never from residual / mju_dot
     k = wf.index("mj_solPGS_island")
-    if "residual" in wf or "mju_dot" in wf or not all(f in ("solPGS", "solveQCQP", "mju_copy", "mju_zero", "memcpy", "__tsan_memcpy", "mju_scl", "mju_addTo", "mju_addToScl", "mju_subFrom") for f in wf[:k]):
+    if "residual" in wf or "mju_dot" in wf or not all(f in ("solPGS", "solveQCQP", "mju_copy", "mju_zero", "memcpy", "__tsan_memcpy", "memset", "__tsan_memset", "mju_scl", "mju_addTo", "mju_addToScl", "mju_subFrom") for f in wf[:k]):
         return None
     return PGS_RACE
 
